@@ -899,4 +899,14 @@ theorem sync_coupled {x : Pair} (hc : Coupled x) (now na : Int) (f : List KeyId)
   | false => exact (syncE_spec hc now na f hpend (h hpend)).1.coupled
   | true => exact (syncR_spec hc.inv hc.noroll now na f hpend).coupled hc
 
+/-- A fixed point of `Pair.sync` stays where it is. -/
+theorem syncs_of_fixed {y : Pair} {now na : Int} (h : ∀ f, y.sync now na f = y) :
+    ∀ fs, y.syncs now na fs = y := by
+  intro fs
+  induction fs with
+  | nil => rfl
+  | cons f fs ih =>
+    show (y.sync now na f).syncs now na fs = y
+    rw [h f]; exact ih
+
 end KM.CaK
